@@ -34,7 +34,7 @@ Unix(s, x) == x \div s.sec
 ----------------------------------------------------------------------------
 (* Address classes.  Names starting with "bad:" are strings that do not     *)
 (* parse as an account address; "" is the empty string.                     *)
-BadAddrs    == {"bad:empty", "bad:notbech32"}
+BadAddrs    == {"bad:empty", "bad:notbech32", "bad:space"}      \* "bad:space": a string of blanks - not empty, not an address
 ValidAddr(a) == a \notin BadAddrs
 NonEmpty(a)  == a # "bad:empty"
 Gov == "gov"
